@@ -44,13 +44,17 @@ var alsoRuns = map[string][]borrow{
 	// … and the horizon follows the installed configuration (C16.V3)
 	"C02": {{prop: "C03"}, {prop: "C14", rules: []string{"M6"}}, {prop: "C09", rules: []string{"L4"}}, {prop: "C18", rules: []string{"F1", "F2", "F3"}}, {prop: "C16", rules: []string{"V3"}}},
 	// … and hands back usable objects: every map a handler assigns into is non-nil after a load (C06.G5)
-	"C03": {{prop: "C14", rules: []string{"M6"}}, {prop: "C02", rules: []string{"N1"}, keyHas: "live global"}, {prop: "C06", rules: []string{"G5"}}},
+	"C03": {{prop: "C13", rules: []string{"E6"}, keyHas: "ending another session"}, {prop: "C14", rules: []string{"M6"}}, {prop: "C02", rules: []string{"N1"}, keyHas: "live global"}, {prop: "C06", rules: []string{"G5"}}},
 	// acknowledged entries survive snapshots (C02, C03), the store honours its contract (C09 + its entry codec), and
 	// "delivers exactly once" includes the resume protocol (C04)
 	// the resume protocol relies on Get/GetNext honouring their contract (C08); a message's reply number is its position in
 	// the batch (C01.R4); nodes that restored from a snapshot file the same outputs under the same ids (C18.F1 default id, C02.N4)
-	"C04": {{prop: "C08"}, {prop: "C01", rules: []string{"R4"}}, {prop: "C18", rules: []string{"F1"}, keyHas: "default id"}, {prop: "C02", rules: []string{"N4"}}},
-	"C05": {{prop: "C02"}, {prop: "C03"}, {prop: "C09"}, {prop: "C18"}, {prop: "C04"}, {prop: "C08"}, {prop: "C14", rules: []string{"M6"}}},
+	// "… to different nodes holding the same log": what a node delivers for an entry must not depend on the node (C01: map
+	// order, clocks, ambient state, id derivation)
+	"C04": {{prop: "C01", rules: []string{"R1", "R2", "R3", "R4"}}, {prop: "C08"}, {prop: "C01", rules: []string{"R4"}}, {prop: "C18", rules: []string{"F1"}, keyHas: "default id"}, {prop: "C02", rules: []string{"N4"}}},
+	// … and a POST is acknowledged without being proposed only where the replicated marker shows it was applied (C10.U1c)
+	"C05": {{prop: "C02"}, {prop: "C03"}, {prop: "C09"}, {prop: "C18"}, {prop: "C04"}, {prop: "C08"}, {prop: "C14", rules: []string{"M6"}},
+		{prop: "C10", rules: []string{"U1"}, keyHas: "success without proposing"}},
 	// the state invariants that justify look-ups in C06.G3 are preserved iff C14's pairing rules hold
 	// … and sessions ended by somebody else leave the session table (C17.Y4), else their next line finds no nickname entry
 	"C06": {{prop: "C14"}, {prop: "C17", rules: []string{"Y4"}}},
@@ -76,13 +80,13 @@ var alsoRuns = map[string][]borrow{
 	"C01": {{prop: "C16", rules: []string{"V3"}, keyHas: "fresh configuration value"}, {prop: "C03"}},
 	// ended sessions must leave the session table, otherwise their secret keeps working
 	// … and the secret survives a snapshot unchanged (C03 obligations about the auth field)
-	"C11": {{prop: "C17", rules: []string{"Y1", "Y3", "Y4"}}, {prop: "C03", keyHasAny: []string{".auth", ".Auth"}}},
+	"C11": {{prop: "C13", rules: []string{"E6"}, keyHas: "ending another session"}, {prop: "C17", rules: []string{"Y1", "Y3", "Y4"}}, {prop: "C03", keyHasAny: []string{".auth", ".Auth"}}},
 	// recipient sets are computed from the membership relations whose pairing C14 checks
 	// … and from the nickname index, which a restore must rebuild for every session with a nickname (C03.K4)
 	// … and nothing but the closing line reaches a session after it ended (C17.Y5)
 	// … and no client can inject a second line with a prefix of its choosing (C15.W2)
 	// … and the identity and membership data survive a snapshot (C03 obligations about those fields)
-	"C12": {{prop: "C14"}, {prop: "C03", rules: []string{"K4"}}, {prop: "C17", rules: []string{"Y5"}}, {prop: "C15", rules: []string{"W2"}},
+	"C12": {{prop: "C13", rules: []string{"E6"}, keyHas: "ending another session"}, {prop: "C14"}, {prop: "C03", rules: []string{"K4"}}, {prop: "C17", rules: []string{"Y5"}}, {prop: "C15", rules: []string{"W2"}},
 		{prop: "C03", keyHasAny: []string{"Session.Nick", "Session.Username", "Session.Realname", "ircPrefix", "IrcPrefix", "Session.Channels", "channel.nicks", "Channel.Nicks", "Session.modes", "Session.AwayMsg", "identifier literal"}}},
 	// operator status lives in per-member arrays: a restore that shares one array between members hands out operator status
 	// … and privileges must survive a snapshot: operator flag, channel settings, member status, invitations, services links
@@ -91,7 +95,8 @@ var alsoRuns = map[string][]borrow{
 		{prop: "C14", rules: []string{"M6"}}, {prop: "C14", rules: []string{"M1"}, keyHas: "invitations"}},
 	// ended sessions leave every relation and the session table (C17.Y4)
 	// … and a restore rebuilds the derived indexes consistently (C03.K4/K4b)
-	"C14": {{prop: "C17", rules: []string{"Y4"}}, {prop: "C03", rules: []string{"K4"}}, {prop: "C03", keyHasAny: []string{"identifier literal"}}},
+	"C14": {{prop: "C17", rules: []string{"Y4"}}, {prop: "C03", rules: []string{"K4"}}, {prop: "C03", keyHasAny: []string{"identifier literal"}},
+		{prop: "C13", rules: []string{"E6"}, keyHas: "ending another session"}},
 	// replicas that load the configuration from a snapshot must get the same one
 	// … and the ban table must be a usable map after every way of installing a configuration (C06.G5), else the next
 	// GLINE kills the replica that restored and the others keep the ban
@@ -104,7 +109,10 @@ var alsoRuns = map[string][]borrow{
 	// "decoded identically by all readers (… restore …)": the snapshot container written by Persist is the one decodeProtobuf
 	// reads (C02.N5)
 	"C18": {{prop: "C02", rules: []string{"N5"}}},
-	"C17": {{prop: "C03", rules: []string{"K7"}}, {prop: "C03", keyHasAny: []string{"SessionExpiration", "LastActivity", "identifier literal"}}},
+	// … and a session that somebody else ends is removed from the table only by the sweep, which runs for operators and
+	// services links: ending another session is therefore tied to that privilege (C13.E6), else the ended session lingers
+	"C17": {{prop: "C03", rules: []string{"K7"}}, {prop: "C03", keyHasAny: []string{"SessionExpiration", "LastActivity", "identifier literal"}},
+		{prop: "C13", rules: []string{"E6"}, keyHas: "ending another session"}},
 }
 
 // Rule set registry: property id -> function.
